@@ -155,7 +155,38 @@ MUTANTS = {
                 "            for t_new, t_old in zip(obj_copy.style.model3d.data, self.style.model3d.data):\n"
                 "                t_new._kwargs = t_old._kwargs\n"},
     ],
-    "C20": [],
+    "C20": [
+        {"name": "revert_fix_alias", "kind": "revert", "commit": "0b26a89"},
+        {"name": "revert_fix_reset", "kind": "revert", "commit": "b397bbb"},
+        {"name": "revert_fix_dipole_ctor", "kind": "revert", "commit": "15cf0ed"},
+        {"name": "show_kwarg_below_object_style", "kind": "sub", "file": ST,
+         "old": "    style.update(**style_kwargs_specific, _match_properties=True)\n",
+         "new": "    style.update(**style_kwargs_specific, _match_properties=True, _replace_None_only=True)\n"},
+        {"name": "family_defaults_without_none_filter", "kind": "sub", "file": ST,
+         "old": "                {k: v for k, v in family_dict.items() if v is not None}\n",
+         "new": "                dict(family_dict.items())\n"},
+        {"name": "resolution_works_on_the_objects_own_style", "kind": "sub", "file": ST,
+         "old": "    style = obj.style.copy()\n",
+         "new": "    style = obj.style if style_kwargs and len(obj_families) > 1 else obj.style.copy()\n"},
+        {"name": "style_kwargs_not_cleared_after_consumption", "kind": "sub", "file": BG,
+         "old": "            style_kwargs = self._style_kwargs.copy()\n            self._style_kwargs = {}\n",
+         "new": "            style_kwargs = self._style_kwargs.copy()\n"},
+        {"name": "families_resolved_general_last", "kind": "sub", "file": ST,
+         "old": "    for obj_family in obj_families:\n        family_style = getattr(default_style, obj_family, {})\n",
+         "new": "    for obj_family in reversed(obj_families):\n        family_style = getattr(default_style, obj_family, {})\n"},
+        {"name": "magic_to_dict_drops_sibling_on_third_level", "kind": "sub", "file": DU,
+         "old": "            if keys[0] in new_kwargs and isinstance(new_kwargs[keys[0]], dict):\n                new_kwargs[keys[0]].update(val)\n",
+         "new": "            if keys[0] in new_kwargs and isinstance(new_kwargs[keys[0]], dict) and len(keys) < 4:\n                new_kwargs[keys[0]].update(val)\n"},
+        {"name": "defaults_shared_between_resets", "kind": "sub", "file": DU,
+         "old": "    dict_ = deepcopy(DEFAULTS)\n",
+         "new": "    dict_ = DEFAULTS if arg is None else deepcopy(DEFAULTS)\n"},
+        {"name": "copy_shares_style_with_original", "kind": "sub", "file": BG,
+         "old": "            obj_copy.style.label = label\n",
+         "new": "            obj_copy.style.label = label\n            obj_copy.style.path = self.style.path\n"},
+        {"name": "invalid_opacity_clamped_not_rejected", "kind": "sub", "file": ST, "count": 1,
+         "old": "    @opacity.setter\n    def opacity(self, val):\n",
+         "new": "    @opacity.setter\n    def opacity(self, val):\n        if isinstance(val, (int, float)) and val > 1:\n            val = 1\n"},
+    ],
 }
 
 
